@@ -31,8 +31,8 @@ ASSUMPTIONS = [
     'a rule left with comments only is not asserted either way (is it "empty"?)',
     'resolveVariables is exercised on hand-written variable sheets (the generator has no @variables)',
 ]
-MIN_EVENTS = {'quick': {'oracle.model': 5500, 'oracle.layout-tokens': 1800, 'oracle.restore': 700, 'prefs.covered': 22},
-              'thorough': {'oracle.model': 120000, 'oracle.layout-tokens': 40000, 'oracle.restore': 15000, 'prefs.covered': 22}}
+MIN_EVENTS = {'quick': {'oracle.model': 5500, 'oracle.layout-tokens': 1800, 'oracle.restore': 700, 'oracle.at-keyword-spelling': 4000, 'dom.edited': 12, 'prefs.covered': 22},
+              'thorough': {'oracle.model': 120000, 'oracle.layout-tokens': 40000, 'oracle.restore': 15000, 'oracle.at-keyword-spelling': 80000, 'dom.edited': 12, 'prefs.covered': 22}}
 
 CONTENT = {
     'keepComments': [False], 'keepEmptyRules': [True], 'keepUnknownAtRules': [False], 'keepUsedNamespaceRulesOnly': [True],
@@ -304,6 +304,29 @@ def judge(ctx, cssutils, sheet, src, assignment, preset, default_out, p_full):
     d = P.diff(got, exp)
     if d is not None:
         ctx.violation('model', case, {'diff': d}, features=feats)
+    if ' /* edited: ' not in src:
+        # "literal versus normalised keywords": with defaultAtKeyword off the at-keywords are the spellings of the source, in its order
+        # (rules that other preferences drop are missing); with it on, every keyword cssutils knows is written in its normal form
+        ctx.count('oracle.at-keyword-spelling')
+        kws = lambda t: [x[1] for x in cssutils.tokenize2.Tokenizer().tokenize(t, fullsheet=True) if x[0] == 'ATKEYWORD' or x[0].endswith('_SYM')]  # noqa: E731
+        out_kw = kws(text)
+        if eff.get('defaultAtKeyword', True):
+            bad = [k for k in out_kw if cssutils.helper.normalize(k) in KNOWN_AT and k != cssutils.helper.normalize(k)]
+            if bad:
+                ctx.violation('at-keyword-spelling', case, {'what': 'not in normal form', 'keywords': bad[:5]}, features=feats)
+        else:
+            nz = cssutils.helper.normalize
+            kept = lambda ks: [k for k in ks if nz(k) in LITERAL_KEPT]  # noqa: E731
+            src_it = iter(kept(kws(src)))
+            missing = [k for k in kept(out_kw) if not any(k == s_ for s_ in src_it)]
+            if missing:
+                ctx.violation('at-keyword-spelling', case, {'what': 'not the spelling of the source (in its order)', 'keywords': missing[:5], 'source_keywords': kws(src)[:20]}, features=feats)
+            # (the other rule kinds never keep their literal keyword: recorded as a finding of its own, by rule kind)
+            src_other = iter([k for k in kws(src) if nz(k) not in LITERAL_KEPT])
+            lost = [k for k in out_kw if nz(k) not in LITERAL_KEPT and not any(k == s_ for s_ in src_other)]
+            if lost:
+                ctx.violation('at-keyword-spelling', case, {'what': 'not the spelling of the source (in its order)', 'keywords': lost[:5], 'source_keywords': kws(src)[:20]},
+                              features=feats + ['at-keyword.rule-kind-without-literal'])
     if all(k in LAYOUT for k in assignment) and not preset:
         ctx.count('oracle.layout-tokens')
         a = tokens_no_ws(cssutils, text)
@@ -313,6 +336,14 @@ def judge(ctx, cssutils, sheet, src, assignment, preset, default_out, p_full):
             ctx.violation('layout-token-sequence', case, {'at': k, 'with_prefs': a[max(0, k - 3) : k + 3], 'default': b[max(0, k - 3) : k + 3]}, features=feats)
     if len(p_full) >= 2:
         ctx.seen(['A', sorted(assignment.items()), preset, core.h8(src)])
+
+
+KNOWN_AT = {'@charset', '@import', '@namespace', '@media', '@page', '@font-face', '@variables', '@top-left-corner', '@top-left', '@top-center', '@top-right',
+            '@top-right-corner', '@bottom-left-corner', '@bottom-left', '@bottom-center', '@bottom-right', '@bottom-right-corner', '@left-top', '@left-middle',
+            '@left-bottom', '@right-top', '@right-middle', '@right-bottom'}  # fmt: skip
+
+
+LITERAL_KEPT = KNOWN_AT - {'@charset', '@media', '@page', '@font-face', '@variables'}
 
 
 def variables_of(cssutils, sheet):
@@ -378,6 +409,13 @@ EXTRA_SHEETS = [
     # empty rules and namespaces used by nothing else (keepEmptyRules x keepUsedNamespaceRulesOnly); queries holding what preferences touch
     '@namespace p "urn:p";@namespace q "urn:q";@namespace r "urn:r";p|a{}q|b{top:0}e{}@media tv{r|c{}}',
     '@import "a.css" tv and (max-width:0.50em);@media screen /*m*/ and (min-width:0.5em) and /*n*/ (color:#AABBCC){a /*s*/ b{top:0.5px /*v*/}}@media /*o*/ print{b{left:0}}',
+    # at-keywords in other spellings, margin boxes included
+    '@IMPORT "a.css";@NameSpace p "urn:p";@Media tv{p|a{top:0}}@PAGE :first{margin:0;@TOP-Left{content:"x"}@bottom-CENTER{content:"y"}}@Font-Face{font-family:x}@x-Y z;',
+    '@i\\mport "a.css";@m\\edia tv{a{top:0}}@page{margin:0;@top-\\left{content:"x"}@TOP-RIGHT{content:"y"}}',
+    # selector lists edited item by item (namespace prefixes come and go)
+    ('@namespace p "urn:p";@namespace q "urn:q";p|a, b{top:0}', 'selector-item-assign'),
+    ('@namespace p "urn:p";@namespace q "urn:q";p|a, b{top:0}', 'selector-item-delete'),
+    ('@namespace p "urn:p";@namespace q "urn:q";p|a, b{top:0}@media tv{p|c, d{left:0}}', 'selector-item-text'),
     # DOMs that were edited after parsing: objects handed to the DOM instead of text
     ('@variables{c:red;w:2px}\na{top:0}@font-face{font-family:x}', 'property-objects'),
     ('@variables{c:red}\na{top:0}@media tv{b{left:0}}@page{margin:0}', 'property-objects'),
@@ -395,6 +433,15 @@ def edit_dom(cssutils, sheet, how):
             elif type(r).__name__ == 'CSSFontFaceRule':
                 r.style.setProperty(css.Property('font-weight', 'bolder'))  # (not a valid descriptor value: validOnly drops it)
                 r.style.setProperty(css.Property('src', 'url(f.woff)'))
+    elif how.startswith('selector-item'):
+        for r in all_rules(sheet):
+            if type(r).__name__ == 'CSSStyleRule':
+                if how == 'selector-item-assign':
+                    r.selectorList[1] = 'q|b'
+                elif how == 'selector-item-delete':
+                    del r.selectorList[0]
+                else:
+                    r.selectorList[0].selectorText = 'q|z'
     elif how == 'moved-properties':
         a, b = [r for r in sheet.cssRules if type(r).__name__ == 'CSSStyleRule'][:2]
         for prop in list(b.style.getProperties(all=True)):
